@@ -1,8 +1,10 @@
-//! smoke test of the node driver + model builder (not a registered property)
+//! development smoke / stress tests of the node driver (not a registered property)
 use crate::common::*;
 use crate::model::*;
 use crate::node::*;
 use serde_json::Value;
+use std::sync::mpsc;
+use std::time::Duration;
 
 pub fn spec() -> CheckSpec {
     CheckSpec {
@@ -10,33 +12,44 @@ pub fn spec() -> CheckSpec {
         level: "exploration",
         rule: "smoke",
         assumptions: &[],
-        workers: |_| 1,
-        watchdog_s: |_| 600,
+        workers: |_| 8,
+        watchdog_s: |_| 900,
         run,
         replay: |_, _, _: &Value| Ok(()),
     }
 }
 
+/// stress: duplicate delivery of a block whose branch fails verification
 fn run(ctx: &Ctx) {
-    for perm in [false, true] {
-        let cfg = SpecCfg { permanent_difficulty: perm, ..Default::default() };
-        let env = build_env(&cfg);
-        let t0 = std::time::Instant::now();
+    let cfg = SpecCfg { permanent_difficulty: true, ..Default::default() };
+    let env = build_env(&cfg);
+    for round in 0..150 {
         let node = Node::start(&env, NodeCfg::default()).expect("node");
-        eprintln!("node start {:?}", t0.elapsed());
         let mut tree = Tree::new(env.consensus.clone());
-        let mut tip = tree.genesis.clone();
-        for i in 0..40u64 {
-            let spec = BlockSpec { timestamp: 1000 + i * 8000, ..Default::default() };
-            let b = tree.build(&tip, &spec, &BuildOpts::default()).expect("build");
-            let r = node.submit(&b.block);
-            eprintln!("block {} epoch {} -> {:?}", b.number, b.block.epoch(), r);
-            if r != Ok(true) { break; }
-            tip = tree.insert(b);
+        let g = tree.genesis.clone();
+        let mk = |tree: &Tree, p: &H, ts: u64, opts: &BuildOpts| tree.build(p, &BlockSpec { timestamp: ts, ..Default::default() }, opts).unwrap();
+        let anchor = tree.insert(mk(&tree, &g, 1000, &BuildOpts::default()));
+        let a1 = tree.insert(mk(&tree, &anchor, 2000, &BuildOpts::default()));
+        let mut bad = BuildOpts::default();
+        bad.dao_delta[0] = 1;
+        let x = tree.insert(mk(&tree, &anchor, 2500, &bad));
+        let f = tree.insert(mk(&tree, &x, 3500, &BuildOpts::default()));
+        assert_eq!(node.submit(&tree.get(&anchor).block), Ok(true));
+        assert_eq!(node.submit(&tree.get(&a1).block), Ok(true));
+        assert_eq!(node.submit(&tree.get(&x).block), Ok(true)); // stored, not best
+        let (tx, rx) = mpsc::channel();
+        for _ in 0..4 {
+            node.deliver_async(&tree.get(&f).block, 0, tx.clone());
         }
+        let (btx, brx) = mpsc::channel();
+        node.deliver_async(&tree.get(&anchor).block, 1, btx.clone());
+        if brx.recv_timeout(Duration::from_secs(10)).is_err() {
+            eprintln!("round {round}: BARRIER TIMEOUT (a chain thread died?)");
+            ctx.stats.borrow_mut().label("wedged");
+            std::process::exit(0);
+        }
+        drop(rx);
         ctx.stats.borrow_mut().eval("smoke");
-        let t1 = std::time::Instant::now();
         node.stop();
-        eprintln!("node stop {:?}", t1.elapsed());
     }
 }
